@@ -10,8 +10,10 @@ import (
 // RaceBuild reports whether the binary was built with -race.
 const RaceBuild = true
 
-func raceDisable()                      { runtime.RaceDisable() }
-func raceEnable()                       { runtime.RaceEnable() }
-func raceErrors() int                   { return runtime.RaceErrors() }
-func raceAcquire(p unsafe.Pointer)      { runtime.RaceAcquire(p) }
-func raceReleaseMerge(p unsafe.Pointer) { runtime.RaceReleaseMerge(p) }
+func raceDisable()                           { runtime.RaceDisable() }
+func raceEnable()                            { runtime.RaceEnable() }
+func raceErrors() int                        { return runtime.RaceErrors() }
+func raceAcquire(p unsafe.Pointer)           { runtime.RaceAcquire(p) }
+func raceReleaseMerge(p unsafe.Pointer)      { runtime.RaceReleaseMerge(p) }
+func raceReadRange(p unsafe.Pointer, n int)  { runtime.RaceReadRange(p, n) }
+func raceWriteRange(p unsafe.Pointer, n int) { runtime.RaceWriteRange(p, n) }
